@@ -343,10 +343,13 @@ func (vc *VC) loopOrdinals(fn *ssa.Function, loops map[*ssa.BasicBlock]*loopData
 			}
 		}
 		best := -1
-		for i, li := range infos {
-			if lo.IsValid() && li.Pos <= lo && hi <= li.End {
-				if best < 0 || (infos[best].End-infos[best].Pos) > (li.End-li.Pos) {
-					best = i
+		if lo.IsValid() {
+			lop, hip := vc.L.Fset.Position(lo), vc.L.Fset.Position(hi)
+			for i, li := range infos {
+				if li.File == lop.Filename && li.Pos <= lop.Offset && hip.Offset <= li.End {
+					if best < 0 || (infos[best].End-infos[best].Pos) > (li.End-li.Pos) {
+						best = i
+					}
 				}
 			}
 		}
@@ -705,14 +708,14 @@ func (fr *Frame) loopClauses(ld *loopData, kind string) []*Clause {
 }
 
 // resolveLoopVar finds the SSA value that holds source variable v at the head of the loop.
-func (fr *Frame) resolveLoopVar(ld *loopData, v *types.Var, phiVals map[*ssa.Phi]Val) (Val, bool) {
+func (fr *Frame) resolveLoopVar(ld *loopData, v loopVar, phiVals map[*ssa.Phi]Val) (Val, bool) {
 	vc := fr.vc
-	// parameters
-	for _, p := range fr.fn.Params {
-		if p.Object() == v {
-			// a parameter that is reassigned shows up as phi/alloc; check debug refs below first
-			break
+	same := func(o types.Object) bool {
+		if o == nil || o.Name() != v.Name {
+			return false
 		}
+		p := vc.L.Fset.Position(o.Pos())
+		return p.Filename == v.File && p.Offset == v.Off
 	}
 	var bestVal ssa.Value
 	var bestAddr bool
@@ -720,7 +723,7 @@ func (fr *Frame) resolveLoopVar(ld *loopData, v *types.Var, phiVals map[*ssa.Phi
 	for _, b := range fr.fn.Blocks {
 		for idx, ins := range b.Instrs {
 			d, ok := ins.(*ssa.DebugRef)
-			if !ok || d.Object() != v {
+			if !ok || !same(d.Object()) {
 				continue
 			}
 			_ = idx
@@ -753,7 +756,7 @@ func (fr *Frame) resolveLoopVar(ld *loopData, v *types.Var, phiVals map[*ssa.Phi
 	}
 	// phi with matching comment
 	for _, phi := range ld.phis {
-		if phi.Comment == v.Name() {
+		if phi.Comment == v.Name {
 			if pv, ok := phiVals[phi]; ok {
 				return pv, true
 			}
@@ -775,7 +778,7 @@ func (fr *Frame) resolveLoopVar(ld *loopData, v *types.Var, phiVals map[*ssa.Phi
 		return x, true
 	}
 	for _, p := range fr.fn.Params {
-		if p.Object() == v {
+		if same(p.Object()) {
 			return fr.val(p), true
 		}
 	}
@@ -802,14 +805,14 @@ func (fr *Frame) evalLoopClause(ld *loopData, cl *Clause, phiVals map[*ssa.Phi]V
 	var args []Val
 	seen := map[string]bool{}
 	for _, v := range li.Vars {
-		if seen[v.Name()] || v.Name() == "_" {
+		if seen[v.Name] || v.Name == "_" {
 			continue
 		}
-		seen[v.Name()] = true
+		seen[v.Name] = true
 		x, ok := fr.resolveLoopVar(ld, v, phiVals)
 		if !ok {
-			srt := vc.sortOf(v.Type())
-			x = Val{T: vc.freshConst("unresolved_"+v.Name(), srt)}
+			srt := vc.sortOf(v.Type)
+			x = Val{T: vc.freshConst("unresolved_"+v.Name, srt)}
 		}
 		args = append(args, x)
 	}
@@ -1016,6 +1019,11 @@ func (fr *Frame) execInstr(ins ssa.Instruction) {
 		return
 	case *ssa.Alloc:
 		et := t.Type().Underlying().(*types.Pointer).Elem()
+		if t.Comment == "makeslice" {
+			// make([]T, const) is compiled to new [N]T + slice; handled at the Slice instruction
+			fr.vals[t] = Val{T: tNil}
+			return
+		}
 		if vc.spec > 0 || isLocalAlloc(t) {
 			vc.ncell++
 			fr.st.cells[vc.ncell] = Val{T: vc.zeroOf(et)}
@@ -1546,6 +1554,20 @@ func (fr *Frame) slice(t *ssa.Slice) {
 		arr, ok := u.Elem().Underlying().(*types.Array)
 		if !ok {
 			unsup("slice of %s", xt)
+		}
+		if al, ok := t.X.(*ssa.Alloc); ok && al.Comment == "makeslice" {
+			n := bvLit(uint64(arr.Len()), 64)
+			hi := n
+			if t.High != nil {
+				hi = fr.idx64(fr.term(t.High), t.High.Type())
+			}
+			if t.Low != nil {
+				unsup("makeslice with low bound")
+			}
+			p := vc.newAlloc(fr.st, true)
+			vc.markFresh(arr.Elem())
+			fr.vals[t] = Val{T: mkSlice(p, hi, n)}
+			return
 		}
 		// materialise the array as a fresh heap slice (used for varargs)
 		av := fr.load(t.X, t.Pos())
